@@ -322,6 +322,71 @@ def archetype_items(u):
            hints=[Hint("start", "let ghost vx_self0 = *self;"),
                   Hint("end", "proof { assert(self.ids() =~= vx_self0.ids().push(entity_identifier)); }")],
            props=["C01", "C13", "C05"]),
+        Fn(AM, IMPL, "clear",
+           rewrites=[(r"for entity_identifier in self\.entity_identifiers\.iter\(\)", "for entity_identifier in vx_it: self.entity_identifiers.iter()",
+                      "loop annotation only: names Verus' ghost iterator state")],
+           requires=PRE,
+           ensures=WF + AWF + [
+               ("C01.clear.empty", "final(self).length == 0 && final(self).rows().len() == 0 && final(self).ids().len() == 0"),
+               ("C02.clear.dead", "forall|k: int| 0 <= k < old(self).length ==> !final(entity_allocator).resolves(#[trigger] old(self).ids()[k])"),
+               ("C01.clear.others", "forall|i: entity::Identifier| final(entity_allocator).resolves(i) == (old(entity_allocator).resolves(i) && !old(self).ids().contains(i))"),
+               ("C01.clear.values", "forall|i: entity::Identifier| final(entity_allocator).resolves(i) ==> final(entity_allocator).view()[i] == old(entity_allocator).view()[i]"),
+               ("frame.slots_len", "final(entity_allocator).slots@.len() == old(entity_allocator).slots@.len()"),
+               ("frame.generations", "forall|s: int| 0 <= s < old(entity_allocator).slots@.len() ==> (#[trigger] final(entity_allocator).slots@[s]).generation == old(entity_allocator).slots@[s].generation"),
+           ],
+           loops=[Loop(invariant=[
+               ("clear.alloc_wf", "entity_allocator.wf()"),
+               ("clear.ids", "self.entity_identifiers@ == vx_self0.ids()"),
+               ("clear.index", "vx_it.index@ <= vx_self0.length"),
+               ("clear.ids_len", "vx_self0.ids().len() == vx_self0.length"),
+               ("clear.remaining_live", "forall|r: int| vx_it.index@ <= r < vx_self0.length ==> entity_allocator.resolves(#[trigger] vx_self0.ids()[r])"),
+               ("clear.dom", "forall|i: entity::Identifier| entity_allocator.resolves(i) == (vx_alloc0.resolves(i) && !vx_self0.ids().take(vx_it.index@).contains(i))"),
+               ("clear.values", "forall|i: entity::Identifier| entity_allocator.resolves(i) ==> entity_allocator.view()[i] == vx_alloc0.view()[i]"),
+               ("clear.slots_len", "entity_allocator.slots@.len() == vx_alloc0.slots@.len()"),
+               ("clear.generations", "forall|s: int| 0 <= s < vx_alloc0.slots@.len() ==> (#[trigger] entity_allocator.slots@[s]).generation == vx_alloc0.slots@[s].generation"),
+               ("clear.distinct", "forall|r: int, q: int| 0 <= r < q < vx_self0.length ==> vx_self0.ids()[r] != vx_self0.ids()[q]"),
+           ])],
+           hints=[Hint("start", "let ghost vx_self0 = *self; let ghost vx_alloc0 = *entity_allocator; proof { vx_self0.lemma_ids_distinct(&vx_alloc0); }"),
+                  Hint("before", "let ghost vx_pre = *entity_allocator; let ghost vx_k = vx_it.index@; proof { assert(vx_k < vx_self0.length); assert(*entity_identifier == vx_self0.ids()[vx_k]); }", anchor=r"entity_allocator\.free_unchecked\("),
+                  Hint("after", r'''proof {
+                let k = vx_k;
+                let idk = vx_self0.ids()[k];
+                assert(*entity_identifier == idk);
+                let t0 = vx_self0.ids().take(k);
+                let t1 = vx_self0.ids().take(k + 1);
+                assert(t1 =~= t0.push(idk));
+                assert forall|i: entity::Identifier| entity_allocator.resolves(i) == (vx_alloc0.resolves(i) && !t1.contains(i)) by {
+                    assert(entity_allocator.view().dom().contains(i) == vx_pre.view().remove(idk).dom().contains(i));
+                    if t1.contains(i) {
+                        let j = choose|j: int| 0 <= j < t1.len() && t1[j] == i;
+                        if j < k { assert(t0[j] == i); }
+                    } else {
+                        if t0.contains(i) {
+                            let j = choose|j: int| 0 <= j < t0.len() && t0[j] == i;
+                            assert(t1[j] == i);
+                        }
+                        assert(i != idk) by { assert(t1[k] == idk); }
+                    }
+                }
+                assert forall|r: int| k + 1 <= r < vx_self0.length implies entity_allocator.resolves(#[trigger] vx_self0.ids()[r]) by {
+                    assert(vx_self0.ids()[r] != idk);
+                    assert(vx_pre.view().dom().contains(vx_self0.ids()[r]));
+                    assert(entity_allocator.view().dom().contains(vx_self0.ids()[r]));
+                }
+                assert forall|i: entity::Identifier| entity_allocator.resolves(i) implies entity_allocator.view()[i] == vx_alloc0.view()[i] by {
+                    assert(entity_allocator.view().dom().contains(i));
+                    assert(vx_pre.view().dom().contains(i));
+                }
+            }''', anchor=r"entity_allocator\.free_unchecked\("),
+                  Hint("end", r'''proof {
+            assert(vx_self0.ids().take(vx_self0.length as int) =~= vx_self0.ids());
+            assert(self.ids() =~= Seq::<entity::Identifier>::empty());
+        }''')],
+           props=["C01", "C02", "C13", "C05"]),
+        Fn(AM, IMPL, "reserve", generics="<E>", where="",
+           requires=[("pre.arch_wf", "old(self).wf()")],
+           ensures=WF + [("C01.reserve.frame", "final(self).length == old(self).length && final(self).rows() == old(self).rows() && final(self).ids() == old(self).ids()")],
+           props=["C01", "C13"]),
         Fn(AM, IMPL, "clear_detached",
            requires=[("pre.arch_wf", "old(self).wf()")],
            ensures=WF + [("C01.clear_detached", "final(self).length == 0 && final(self).rows().len() == 0 && final(self).ids().len() == 0")],
